@@ -100,7 +100,7 @@ manifest = {
     "setup_cmd": "./run setup",
     "hooks": {
         "guard": "--cfg ipt_verif_rt",
-        "enable": "engine S compiles /repo/src/lib.rs as the library of its own package whose build.rs emits cargo:rustc-cfg=ipt_verif_rt (no RUSTFLAGS, /repo/Cargo.toml untouched by the build); every other check uses the unhooked public API or the CLI binary",
+        "enable": "engine S compiles a copy of /repo/src made on every check (tools/redirect_sync.py: std::sync / std::thread paths redirected to the scheduler-aware shim; /repo itself untouched) as the library of its own package, whose build.rs emits cargo:rustc-cfg=ipt_verif_rt (no RUSTFLAGS, /repo/Cargo.toml not involved); every other check uses the unhooked public API or the CLI binary",
         "baseline_off_cmd": "cd /repo && cargo test --workspace --no-fail-fast --offline",
         "source_commits": hook_commits,
         "add_only": True,
